@@ -2,10 +2,12 @@
    cache) after any history of run / start+step / option changes on one
    solver object.  Property theorems only; proofs in Proofs/C13_conf.v.
 
-   `fixed_flags` is the source with the repair proposed in
-   /verif/.fixes/C13_options_setter_rebind.patch; `cur_flags` is the source
-   as it is (f_rebind = false).  The correspondence K4 of ./check C13
-   evaluates both and says which one the tree under test matches. *)
+   `fixed_flags` is the source under test (since /repo c83a966 the options
+   setter hands the new options object to the integrator); `cur_flags`
+   (f_rebind = false) is the source before c83a966, kept as a refuted variant
+   like the pre-bdf00f0 one.  The correspondence K4 of ./check C13 evaluates
+   both and reports the old defect by name if the tree under test matches
+   f_rebind = false again. *)
 From Coq Require Import List ZArith Bool Arith Lia.
 Import ListNotations.
 From QV Require Import Model.C13_conf Proofs.C13_conf.
@@ -39,8 +41,8 @@ Proof.
 Qed.
 Print Assumptions C13_trajectory_sees_last_set_values.
 
-(* the source as it is: `solver.options = {"norm_tol": 2^-9}` (property setter,
-   solver-level keys only) creates a new options object and leaves the
+(* the source before /repo c83a966: `solver.options = {"norm_tol": 2^-9}` (property
+   setter, solver-level keys only) created a new options object and left the
    MCIntegrator with the old one - the full statement above is false for
    cur_flags *)
 Theorem C13_options_setter_refuted :
